@@ -311,10 +311,14 @@ func (e *Env) RNewlineScan() {
 	guarded := true
 	ast.Inspect(loop.Body, func(n ast.Node) bool {
 		call, ok := n.(*ast.CallExpr)
-		if !ok || funcKey(calleeFunc(info, call)) != "(*go/token.FileSet).Position" || len(call.Args) != 1 {
+		if !ok {
 			return true
 		}
-		if !strings.Contains(c.ExprStr(call.Args[0]), ivar+" + 1") && !strings.Contains(c.ExprStr(call.Args[0]), ivar+"+1") {
+		_, parg, isLookup := e.posLookup(pkg, call, 0)
+		if !isLookup {
+			return true
+		}
+		if !strings.Contains(c.ExprStr(parg), ivar+" + 1") && !strings.Contains(c.ExprStr(parg), ivar+"+1") {
 			return true
 		}
 		in := false
@@ -713,7 +717,20 @@ func (e *Env) avoidKeyProvenance(lit *ast.FuncLit) {
 				case *ast.SelectorExpr:
 					if v.Sel.Name == "Line" {
 						if p, nme := namedOf(info.TypeOf(v.X)); p == "go/token" && nme == "Position" {
-							merge("adjusted")
+							// which numbering: that of the look-up the position comes from
+							k := "adjusted"
+							src := ast.Unparen(v.X)
+							if id, isID := src.(*ast.Ident); isID {
+								if def := singleDefIn(info, lit.Body.List, info.Uses[id]); def != nil {
+									src = ast.Unparen(def)
+								}
+							}
+							if call, isCall := src.(*ast.CallExpr); isCall {
+								if kk, _, okL := e.posLookup(pkg, call, 0); okL {
+									k = kk
+								}
+							}
+							merge(k)
 							return false
 						}
 					}
